@@ -105,6 +105,22 @@ def unary_calls(shape):
         yield f"expand_dims {ax}", "expand_dims", (lambda f, x, a=ax: f(x, a))
     for fn in ("atleast_1d", "atleast_2d", "atleast_3d"):
         yield fn, fn, (lambda f, x: f(x))
+    # keyword spellings of the same arguments
+    yield "reshape shape=(-1,)", "reshape", (lambda f, x: f(x, shape=(-1,)))
+    yield "reshape shape=, order=F", "reshape", (lambda f, x: f(x, shape=(n,), order="F"))
+    if nd:
+        yield "transpose axes=", "transpose", (lambda f, x: f(x, axes=tuple(range(nd))[::-1]))
+        yield "moveaxis source=,destination=", "moveaxis", (lambda f, x: f(x, source=0, destination=-1))
+        yield "repeat repeats=,axis=", "repeat", (lambda f, x: f(x, repeats=2, axis=-1))
+        yield "split indices_or_sections=,axis=", "split", (lambda f, x: f(x, indices_or_sections=[1], axis=0))
+        yield "array_split axis= first", "array_split", (lambda f, x: f(x, axis=0, indices_or_sections=2))
+    yield "expand_dims axis=", "expand_dims", (lambda f, x: f(x, axis=0))
+    yield "tile reps=", "tile", (lambda f, x: f(x, reps=(1, 2)))
+    if nd >= 2:
+        yield "diagonal offset=,axis1=,axis2=", "diagonal", (lambda f, x: f(x, offset=0, axis1=1, axis2=0))
+        yield "diagonal axis2= only", "diagonal", (lambda f, x: f(x, axis2=-1))
+    if nd in (1, 2):
+        yield "diag k=", "diag", (lambda f, x: f(x, k=1))
     for ax in range(-nd, nd):
         for rep in (0, 1, 2):
             yield f"repeat {rep} axis={ax}", "repeat", (lambda f, x, r=rep, a=ax: f(x, r, axis=a))
